@@ -11,7 +11,7 @@ EXPLANATION = ("Sufficient conditions for exactly-once destruction under every i
                "of handles handed out, clone = one increment per handle, the unsafe bulk API has only the listed in-crate users; (R14.4) the "
                "control block's data_id/allocator are immutable and every Deref-like impl resolves through them; (R14.5) unique->shared "
                "conversion suppresses the unique handle's Drop (ManuallyDrop) and OgreUnique is neither Clone nor Copy; (R14.6) the pool's dealloc_id -- the only "
-               "thing the last handle's drop calls -- destroys the payload strictly before the slot re-enters the free list.")
+               "thing the last handle's drop calls -- destroys the payload strictly before the slot re-enters the free list. (R14.7) the safe constructors allocate once, run the setter on the allocated reference and wrap exactly the allocated id (new_with = new_with_clones::<1>); references_count() answers a load of the counter.")
 ASSUMPTIONS = ["the count equals the number of live handles given R14.3 and that unsafe raw_copy/increment_references are used as paired in R03.4",
                "DerefMut on a shared handle (safe mutation of shared data) is outside the statement"]
 
@@ -166,6 +166,44 @@ def check(ctx):
     de = [(b, c) for (b, c) in body.calls if c.get("fname") in ("dealloc_ref", "dealloc_id")]
     ok = len(de) == 1 and util.on_every_return_path(body, de[0][0]) and not util.in_loop(body, de[0][0])
     ctx.ob("R14.5", f"{kd}|deallocates-once", ok, f"{body.f['file']}:{body.f['line']}", "dropping the unique handle returns its slot exactly once")
+    # ------------------------------------------------------------------ R14.7 constructors and the reported count
+    # `new` / `new_with` / `new_with_clones` allocate once, write through the allocated reference and wrap exactly the allocated id; `references_count()` is a
+    # load of the counter the clone / drop protocol maintains
+    def fam(k): return [f for f in fx.fns if f["key"] == k or f["key"].startswith(k + "::{closure#")]
+    def calls_of(k, name): return [(f, blk["term"][1]) for f in fam(k) for blk in f["blocks"] if blk["term"][0] == "Call" and blk["term"][1].get("fname") == name]
+    for ctor, wrap in (("new", "from_allocated"), ("new_with_clones", "from_allocated_with_clones")):
+        k = f"{ARC}::{ctor}"
+        al = calls_of(k, "alloc_ref"); wr = calls_of(k, wrap)
+        ok = len(al) == 1 and len(wr) == 1
+        det = f"{len(al)} alloc_ref, {len(wr)} {wrap}"
+        if ok:
+            wf, wc = wr[0]
+            wd = D.Dag(Body(wf))
+            ide = strip_casts(wd.expr(wc["args"][0]))
+            # the id handed to the wrapper is component 1 of the (reference, id) pair alloc_ref answered (the closure's parameter, or the Some payload)
+            ok = ide[0] == "field" and str(ide[1]) == "1"
+            det += f"; wraps id `{show(ide)[:60]}` (required: the id alloc_ref answered)"
+        ctx.ob("R14.7", f"{k}|wraps-the-allocated-id", ok, f"{fam(k)[0]['file']}:{fam(k)[0]['line']}", det)
+    k = f"{ARC}::new_with_clones"
+    st = [(f, c) for f in fam(k) for blk in f["blocks"] if blk["term"][0] == "Call" for c in [blk["term"][1]] if c.get("f") == "std::ops::FnOnce::call_once"]
+    ok = len(st) == 1
+    if ok:
+        sf, sc = st[0]; sd = D.Dag(Body(sf))
+        tup = sd.expr(sc["args"][1])
+        a0 = strip_casts(tup[1][0]) if tup[0] == "tuple" and tup[1] else ("?",)
+        ok = a0[0] == "field" and str(a0[1]) == "0"
+    ctx.ob("R14.7", f"{k}|setter-writes-the-allocated-slot", ok, f"{fam(k)[0]['file']}:{fam(k)[0]['line']}", "the setter runs once, on the reference alloc_ref answered (component 0 of the pair)")
+    k = f"{ARC}::new_with"
+    nb = Body(fx.fn(k))
+    cw = [(b, c) for (b, c) in nb.calls if c.get("fname") == "new_with_clones"]
+    one = cw and any(str(g[-1]) in ("1", "1_usize") for g in cw[0][1].get("gargs", []) if g and g[0] == "C")
+    ctx.ob("R14.7", f"{k}|is-new_with_clones-of-one", len(cw) == 1 and bool(one), f"{nb.f['file']}:{nb.f['line']}", f"new_with = new_with_clones::<1> ({[g for g in (cw[0][1].get('gargs') if cw else [])]})")
+    k = f"{ARC}::references_count"
+    rb = Body(fx.fn(k)); rd = D.Dag(rb)
+    r0 = strip_casts(rd.local(0))
+    ctx.ob("R14.7", f"{k}|answers-the-counter", r0[0] == "atomic" and r0[1] == "load" and r0[2][-1:] == ("references_count",), f"{rb.f['file']}:{rb.f['line']}",
+           f"answers `{show(r0)[:60]}`; required: a load of the control block's references_count")
+    ctx.floor("R14.7", 5)
     ctx.floor("R14.2", 6); ctx.floor("R14.3", 5); ctx.floor("R14.4", 5); ctx.floor("R14.5", 5)
 
 
